@@ -34,7 +34,7 @@ def path_scenarios(ms, trans, stride=1, offset=0, tag="wf"):
                 continue
             calls = [list(c) for c in t["pre"]] + [[t["obj"], t["op"]]]
             scen.append({"kind": "workflow", "id": "%s:%s:%d" % (tag, m["id"], k), "sites": m["sites"], "build": m["build"],
-                         "beta": m["beta"], "ij": m["ij"], "calls": calls, "log": "last", "doc": bool(t.get("doc", True))})
+                         "beta": m["beta"], "ij": m["ij"], "calls": calls, "log": "last", "doc": bool(t.get("doc", True)), "complete": True})
     return scen
 
 
@@ -43,7 +43,7 @@ def history_scenarios(ms, hists, tag="sim"):
     for k, h in enumerate(hists):
         m = ms[k % len(ms)]
         scen.append({"kind": "workflow", "id": "%s:%s:%d" % (tag, m["id"], k), "sites": m["sites"], "build": m["build"],
-                     "beta": m["beta"], "ij": m["ij"], "calls": [list(c) for c in h], "doc": True})
+                     "beta": m["beta"], "ij": m["ij"], "calls": [list(c) for c in h], "doc": True, "complete": True})
     return scen
 
 
